@@ -285,15 +285,55 @@ def service_status_witnesses(ctx):
         return gss, [(None, "table", "SERVICE_STATUS is a constant table", repr(type(table)))]
     p = gss.node.args.args[0].arg
     known = sorted(k for k in table if isinstance(k, int))
-    for code in [known[0], known[len(known) // 2], known[-1], 0x06]:
-        if code not in table:
-            continue
+    for code in known:
         kind, res = run_function(ctx, gss.module, gss.node, {p: code}, deep=False)
         out.append(((None if kind == "unknown" else kind == "return" and res == table[code]), f"known:{code:#04x}", table[code], f"{kind} {res!r}"))
-    for code in (0xEE, 0x0B if 0x0B not in table else 0xAB):
+    for code in range(256):  # every status byte outside the table (other tables of the package have texts for some of them)
         if code in table:
             continue
         kind, res = run_function(ctx, gss.module, gss.node, {p: code}, deep=False)
         ok = None if kind == "unknown" else (kind == "return" and isinstance(res, str) and bool(res) and f"{code:02x}" in res.lower())
         out.append((ok, f"unknown:{code:#04x}", f"a text naming {code:#04x}", f"{kind} {res!r}"))
     return gss, out
+
+
+def initial_cfg(ctx):
+    """The `_cfg` mapping a new CIPDriver starts with: the constructor folded on a witness path (the path parser gives a marker
+    host, no port and a marker route).  Returns (dict, None) or (None, reason).  However the constructor assembles the mapping -
+    one literal, merged module tables, later stores - the rules read what it holds afterwards."""
+    cached = getattr(ctx, "_initial_cfg", None)
+    if cached is not None:
+        return cached
+    from ..consteval import UNKNOWN
+    from ..miniinterp import Obj, run_function
+
+    drv = ctx.model.cls("pycomm3.cip_driver:CIPDriver")
+    init = drv.methods.get("__init__")
+    if init is None:
+        out = (None, "CIPDriver.__init__ vanished")
+    else:
+        def hook(call, env, it):
+            n = call_name(call) or ""
+            if n == "parse_connection_path" and isinstance(call.func, ast.Name):
+                return ("10.1.2.3", None, ["<segment>"])
+            if n == "cycle":
+                return Obj(kind="sequence")
+            return UNKNOWN
+
+        me = Obj(_ci=drv)
+        env = {"self": me, init.args.args[1].arg: "10.1.2.3/bp/1"}
+        if init.args.vararg:
+            env[init.args.vararg.arg] = ()
+        if init.args.kwarg:
+            env[init.args.kwarg.arg] = {}
+        kind, res = run_function(ctx, drv.module, init, env, call_hook=hook, deep=False)
+        cfg = me.__dict__.get("_cfg")
+        if kind != "return" or not isinstance(cfg, dict):
+            out = (None, f"CIPDriver.__init__ not foldable: {kind} {res}")
+        else:
+            out = (dict(cfg), None)
+    try:
+        ctx._initial_cfg = out
+    except AttributeError:
+        pass
+    return out
